@@ -1,7 +1,7 @@
 (* C01 - charge is conserved in every cell at every recorded step. *)
 From Coq Require Import Reals List Arith.
 From PyTdgl Require Import Base.Ops Base.Cplx Base.Sums Model.FV Model.Euler Model.Step
-     Proofs.EulerR Proofs.FVR Proofs.FVC Proofs.StepP Proofs.BalanceR.
+     Proofs.EulerR Proofs.FVR Proofs.FVC Proofs.StepP Proofs.BalanceR Proofs.GaugeP.
 Import ListNotations.
 Open Scope R_scope.
 
@@ -91,3 +91,30 @@ Theorem C01_balance_room_binary64 :
   0 <= u < 1 /\ 0 <= g /\ 0 <= g < 1 /\ u / (1 - u) + g <= 1e-9 * (1 - g).
 Proof. exact room_binary64. Qed.
 Print Assumptions C01_balance_room_binary64.
+
+(* the linear solver as it is in the code (the potential is fixed at site 0: row 0 of the Poisson matrix is the identity
+   row and rhs_0 = 0, so only the rows r <> 0 are guaranteed by the factorisation): for a balanced injection the dropped
+   equation follows and charge is conserved in EVERY cell, the pinned one included *)
+Theorem C01_continuity_pinned_solver :
+  forall (a : nat -> R) (n : nat) (es : list edgeR),
+    wf_edges n es -> areas_nz n a -> (0 < n)%nat ->
+    forall (solve : (nat -> R) -> nat -> R) (U : list RC) (psi : nat -> RC) (muB dAdt : nat -> R),
+    let ob := solve_for_observables OpsR a es solve U psi muB dAdt in
+    bflux_total 0 es muB = 0 ->
+    (forall r, (0 < r < n)%nat -> applyR (lap_coo OpsR a es) (ob_mu _ ob) r = ob_rhs _ ob r) ->
+    forall r, (r < n)%nat ->
+      applyR (div_coo OpsR a 0 es) (fun k => ob_Js _ ob k + ob_Jn _ ob k) r
+      = applyR (bflux_coo OpsR a 0 es) muB r.
+Proof. exact continuity_pinned. Qed.
+Print Assumptions C01_continuity_pinned_solver.
+
+(* ... and an unbalanced injection cannot be hidden by the pinned solver: the defect of cell 0 is the whole imbalance *)
+Theorem C01_pinned_cell_carries_imbalance :
+  forall (a : nat -> R) (n : nat) (es : list edgeR),
+    wf_edges n es -> areas_nz n a -> (0 < n)%nat ->
+    forall (solve : (nat -> R) -> nat -> R) (U : list RC) (psi : nat -> RC) (muB dAdt : nat -> R),
+    let ob := solve_for_observables OpsR a es solve U psi muB dAdt in
+    (forall r, (0 < r < n)%nat -> applyR (lap_coo OpsR a es) (ob_mu _ ob) r = ob_rhs _ ob r) ->
+    a 0%nat * (applyR (lap_coo OpsR a es) (ob_mu _ ob) 0%nat - ob_rhs _ ob 0%nat) = bflux_total 0 es muB.
+Proof. exact pinned_cell_carries_imbalance. Qed.
+Print Assumptions C01_pinned_cell_carries_imbalance.
